@@ -574,7 +574,15 @@ impl Locale {
             if let Some((base_key, rule_type, plural_form)) = Self::is_possible_plural(&key, &value)
             {
                 let map = possible_plurals.entry(base_key.to_owned()).or_default();
-                map.insert(plural_form, (key, rule_type, value));
+                // same base key and same form: one is cardinal and the other ordinal
+                if map.insert(plural_form, (key.clone(), rule_type, value)).is_some() {
+                    key_path.push_key(key);
+                    return Err(Error::ConflictingPluralRuleType {
+                        locale,
+                        key_path: std::mem::take(key_path),
+                    }
+                    .into());
+                }
             } else {
                 self.keys.insert(key, value);
             }
